@@ -612,6 +612,9 @@ def parseTok (tok : String) : Tok :=
     if name == "new" then .new
     else if name == "wrap" then .wrap
     else if name == "fill" then .fill ((parseHexU8 arg).getD 0xa5)
+    -- an explicit `Zeroize::zeroize()` on a plain / unlocked read-write container (the only states in which the harness
+    -- issues it) zeroes the `len` bytes and keeps the length: the same state change as `fill:00`
+    else if name == "zeroize" then .fill 0
     else if name == "lock" then .lock
     else if name == "unlock" then .unlock
     else if name == "ro" then .ro
